@@ -214,6 +214,14 @@ PROPERTIES["C02"] = dict(
              "filter-host 1..=2 of [a-z0-9.-], request host valid 1..=3, remainder 1..=2 starting with '/', URL tail 0..=2 starting with '/',':' or '?'; URL = 's://' ++ host ++ tail",
              [("hb", B(2)), ("hl", "usize"), ("rb", B(3)), ("rl", "usize"), ("fb", B(2)), ("fl", "usize"), ("tb", B(2)), ("tl", "usize")], "c02_host",
              asserts="match <=> some label-boundary occurrence of the filter host in the host with the remainder a prefix of the URL text directly after it", stubs=STD_REGEX_STUBS, consts={"la": True, "ra": False}),
+        kern("C02.host.unanchored", "src/filters/network_matchers.rs", "h_network_matchers.rs", "c02_host_unanchored", [T], 1500, 4000, 40,
+             ["filters::network_matchers::check_pattern", "check_pattern_hostname_anchor_filter", "is_anchored_by_hostname", "get_url_after_hostname"],
+             "'||fh*f': filter-host 1..=2 of [a-z0-9.-], request host valid 1..=3, literal f 1..=2 printable ASCII, URL tail 0..=2; URL = 's://' ++ host ++ tail",
+             [("hb", B(2)), ("hl", "usize"), ("rb", B(3)), ("rl", "usize"), ("fb", B(2)), ("fl", "usize"), ("tb", B(2)), ("tl", "usize")], "c02_host",
+             asserts="match <=> some occurrence of the filter host starts at a label boundary of the host and the literal occurs in the URL text after it",
+             stubs=STD_REGEX_STUBS + ["str::contains at the one call site of this arm -> naive substring search (textual substitution; std's SIMD search does not finish under Kani)"],
+             subst=[(r"url_after_hostname\.contains\(f\)", "crate::verif_shim::mc::memmem::find(url_after_hostname.as_bytes(), f.as_bytes()).is_some()", "src/filters/network_matchers.rs")],
+             consts={"la": False, "ra": False, "unanchored": True}),
         kern("C02.host.both", "src/filters/network_matchers.rs", "h_network_matchers.rs", "c02_host_both", [T], 230, 2400, 12,
              ["filters::network_matchers::check_pattern", "check_pattern_hostname_left_right_anchor_filter", "is_anchored_by_hostname", "get_url_after_hostname"],
              "as C02.host.left", [("hb", B(2)), ("hl", "usize"), ("rb", B(3)), ("rl", "usize"), ("fb", B(2)), ("fl", "usize"), ("tb", B(2)), ("tl", "usize")], "c02_host",
